@@ -26,9 +26,13 @@ TorchCompatible(a, b) ==
     LET n == Min2(Len(a), Len(b)) IN
     \A q \in 1..n : LET u == a[Len(a) - q + 1]  v == b[Len(b) - q + 1] IN u = v \/ u = 1 \/ v = 1
 
+\* every case with a second operand y also exists with y exactly zero (fill 0): a shortcut for zero operands must not
+\* come before the guards
 C(op, cls, x, extra, doc, incompat) ==
-    /\ case' = [op |-> op, cls |-> cls, x |-> x] @@ extra
-    /\ res' = [doc |-> doc, incompat |-> incompat]
+    \E zy \in BOOLEAN :
+       /\ (zy => "y" \in DOMAIN extra)
+       /\ case' = [op |-> op, cls |-> cls, x |-> x] @@ (IF zy THEN [extra EXCEPT !.y = [extra.y EXCEPT !.f = 0]] ELSE extra)
+       /\ res' = [doc |-> doc, incompat |-> incompat]
 
 \* ---------------------------------------------------------------- families
 ShapeMismatchTT(x) ==      \* + - * between tensors whose shapes cannot be broadcast in either direction
